@@ -138,4 +138,46 @@ theorem C12_replace_traversal (p old new : Nat) (h : Heap) (e : Err) (on : Node)
           exact ⟨listOf_modify_keep h p x _ (fun _ => rfl), parentOf_modify_keep h p x _ (fun _ => rfl)⟩
         · exact absurd ht h1'
 
+/-- **C12 (add, as the library's `ElementList.append` does it after the repair of D34).** A child refused at admission
+    promotes nothing: the heap, including the pending traversal element that was asked to take the child, is exactly what it was. -/
+theorem C12_appendP_refused (fuel p c : Nat) (h : Heap) (e : Err) (herr : (append R p c h).2 = .error e) :
+    appendP R fuel p c h = (h, .error e) := by
+  have hh := C12_append_atomic R p c h e herr
+  unfold appendP
+  cases hr : append R p c h with
+  | mk h2 r2 =>
+    rw [hr] at herr hh
+    simp only at herr hh
+    subst herr; subst hh
+    rfl
+
+/-- **C12 (add, whole operation).** Whenever the library's `append` raises, the heap is either exactly what it was, or exactly
+    what the promotion of the (pending) receiving element made of it — the child itself is attached nowhere: no third state exists. -/
+theorem C12_appendP_atomic (fuel p c : Nat) (h : Heap) (e : Err) (herr : (appendP R fuel p c h).2 = .error e) :
+    (appendP R fuel p c h).1 = h ∨ (pending h p = true ∧ (appendP R fuel p c h).1 = (promote R fuel p h).1) := by
+  unfold appendP at herr ⊢
+  cases hr : append R p c h with
+  | mk h2 r2 =>
+    cases r2 with
+    | error e2 =>
+      left
+      have := C12_append_atomic R p c h e2 (by rw [hr])
+      rw [hr] at this; exact this
+    | ok u =>
+      simp only [hr] at herr ⊢
+      by_cases hcond : (listsNew h h2 p c && pending h p) = true
+      · rw [if_pos hcond] at herr ⊢
+        have hpend : pending h p = true := by
+          cases hl : listsNew h h2 p c <;> simp_all
+        right
+        refine ⟨hpend, ?_⟩
+        cases hq : promote R fuel p h with
+        | mk h1 r1 =>
+          cases r1 with
+          | error e1 => rfl
+          | ok u1 =>
+            simp only [hq] at herr ⊢
+            exact C12_append_atomic R p c h1 e herr
+      · rw [if_neg hcond] at herr; simp at herr
+
 end Hl7.Heap
